@@ -333,6 +333,13 @@ class SBytes:
             i = core.concretize(i)
         return self.b[i]
 
+    def __mul__(self, n):
+        if isinstance(n, SInt):
+            n = core.concretize(n, limit=70000)
+        return mkbytes(self.b * n)
+
+    __rmul__ = __mul__
+
     def __bool__(self):
         return len(self.b) > 0
 
